@@ -410,28 +410,34 @@ def quantum_vectors(r, count):
 
 
 def threshold_vectors(r, count):
-    """gaps exactly at the span-class thresholds of the adaptive inventories (2^16, 2^16 + 1):
-    with 2^a ones per inventory entry, consecutive groups of 2^a ones start exactly
-    65535 / 65536 / 65537 bits apart"""
+    """gaps exactly at the span-class threshold of the adaptive inventories (2^16 +- a few bits):
+    with 2^a ones per inventory entry, every group of 2^a ones begins some ones near its start and
+    ends with consecutive ones at offsets D-3, D-2, D-1 from its first one, and the next group begins
+    at offset D (or later), for D in 65535 .. 65540: the span of the entry is D (or more), the largest
+    stored offset is D - 1. The vector remembers a ("_a") so that structures with that quantum are built."""
     out = []
     for _ in range(count):
-        a = r.choice([0, 1, 2, 3])
+        a = r.choice([1, 1, 2, 3])
         g = 1 << a
-        pos, p = [], r.choice([0, 5, 63])
+        pos, p = [], r.choice([0, 5, 63, 64])
         for _ in range(r.choice([2, 3, 4])):
-            grp = sorted(r.sample(range(0, r.choice([g, 64, 300])), g)) if g > 1 else [0]
-            grp = [x - grp[0] for x in grp]
+            d = r.choice([65535, 65536, 65537, 65537, 65538, 65539, 65540])
+            tail = min(g - 1, 3)
+            head = g - tail
+            grp = [0] + sorted(r.sample(range(1, 400), head - 1)) + [d - 1 - k for k in range(tail - 1, -1, -1)]
             pos += [p + x for x in grp]
-            p += r.choice([65535, 65536, 65537, 65536 + 64, 32768, 131072])
+            p += d + r.choice([0, 0, 1, 700])
         n = pos[-1] + 1 + r.choice([0, 1, 63, 1000, 65536, 65537])
         v = from_positions(n, pos)
-        if r.random() < 0.35:   # complement: the same gaps for the zero selectors
+        if r.random() < 0.4:   # complement: the same gaps for the zero selectors
             runs, q = [], 0
             for x in pos:
                 runs.append((q, x))
                 q = x + 1
             runs.append((q, n))
             v = mkvec(n, runs)
+            v["_zero"] = True
+        v["_a"] = a
         out.append(v)
     return out
 
@@ -455,10 +461,13 @@ def select9_vectors(r, count):
             n = words * 64 - r.choice([0, 0, 1, 17, 63])
             out.append(random_density(r, n, r.choice([0.01, 0.13, 0.5, 0.9, 1.0])))
             continue
-        p = r.choice([0, 70, 300, 1000, 5000])
+        p = r.choice([0, 256, 1024, 70, 1000, 5000])
         runs, off = [], p
         for _ in range(r.choice([0, 1, 1, 2])):
-            bits = r.choice([512, 700, 1100, 4100, 16500, 33000, 40000, 66000, 100000, 131072, 140000])
+            if r.random() < 0.6:   # spans of exactly S subinventory words (256 bits each) when p is aligned
+                bits = 256 * r.choice([2, 3, 15, 16, 17, 127, 128, 129, 255, 256, 257, 511, 512, 513])
+            else:
+                bits = r.choice([512, 700, 1100, 4100, 16500, 33000, 40000, 66000, 100000, 131072, 140000])
             runs += spread(off, bits, 512)
             off += bits
         bits, ones = r.choice([(1, 0), (1, 1), (200, 3), (70000, 3), (140000, 1), (5000, 511), (140000, 511),
@@ -507,15 +516,25 @@ def inv(t, a, b):
     return {"l": t, "t": t, "m": "inv", "a": a, "b": b}
 
 
-def must_for(kind, r):
+def must_for(kind, r, v=None):
+    v = v or {}
     """stacks that a vector family is aimed at (always built, whatever the rotation hands out)"""
     if kind == "select9":
         return [r.choice([[R9, S9], [R9, S9], [ANB, R9, S9], [R9, S9, SZA(r)], [ANB, SA(r), R9, S9]])]
     if kind == "threshold":
-        a, b = r.choice([0, 1, 2, 3]), r.choice([0, 1, 2, 3])
-        return [r.choice([[ANB, inv("sa", a, b)], [R9, inv("sa", a, b), inv("sza", a, b)]]),
-                r.choice([[ANB, inv("sza", a, b)], [ANB, SAC(3, 0)], [ANB, SZAC(3, 0)], [ANB, SAC(1, 1)],
-                          [ANB, SAC(0, 0)], [ANB, SZAC(0, 0)]])]
+        a = v.get("_a", 1)
+        b = r.choice([max(0, a - 2), max(0, a - 2) + 1, 3])     # every one of an entry is sampled
+        zero = v.get("_zero", False)
+        sel = "sza" if zero else "sa"
+        const = {1: (1, 1), 3: (3, 0)}.get(a)
+        if const and const not in (SZAC_MENU if zero else SAC_MENU):
+            const = None
+        out = [r.choice([[ANB, inv(sel, a, b)], [R9, inv(sel, a, b)]])]
+        if const:
+            out.append([ANB, (SZAC if zero else SAC)(*const)])
+        else:
+            out.append([ANB, inv(sel, a, r.choice([0, 1, 2, 3, 16]))])
+        return out
     if kind == "quantum":
         a = r.choice([0, 1, 2, 3, 4, 6, 8, 9, 10, 12, 13])
         return [r.choice([[ANB, inv("sa", a, r.choice([0, 1, 3]))], [ANB, inv("sza", a, r.choice([0, 1, 3]))],
@@ -534,8 +553,8 @@ def all_vectors(r, scale):
     vs += [(v, 5, "block") for v in block_vectors(r, 40 * scale)]
     vs += [(v, 4, "density") for v in density_vectors(r, [4096, 20000] if scale == 1 else [4096, 20000, 100000, 300000])]
     vs += [(v, 4, "quantum") for v in quantum_vectors(r, 24 * scale)]
-    vs += [(v, 3, "threshold") for v in threshold_vectors(r, 12 * scale)]
-    vs += [(v, 3, "select9") for v in select9_vectors(r, 32 * scale)]
+    vs += [(v, 3, "threshold") for v in threshold_vectors(r, 16 * scale)]
+    vs += [(v, 3, "select9") for v in select9_vectors(r, 48 * scale)]
     vs += [(v, 2, "sparse") for v in sparse_vectors(r, 8 * scale)]
     return vs
 
@@ -564,6 +583,30 @@ def rotate_tails(r):
             yield t
 
 
+def s9_boundary_episodes(r, what):
+    """Select9: inventory spans of exactly S subinventory words for S at every class boundary
+    (classes 0..1, 2..15, 16..127, 128..255, 256..511, 512..), as first, middle and last entry,
+    starting in the first four words or not; always queried through Select9"""
+    eps = []
+    for S in (2, 15, 16, 17, 127, 128, 129, 255, 256, 257, 511, 512, 513):
+        for p in (0, 256 * r.choice([1, 3, 5])):
+            for shape in ("first", "middle"):
+                runs, off = [], p
+                if shape == "middle":
+                    runs += spread(off, 512, 512)
+                    off += 512
+                runs += spread(off, 256 * S, 512)
+                off += 256 * S
+                k = r.choice([1, 7, 300, 512])
+                runs += spread(off, r.choice([k, 256 * S, 3000]), k)     # the last (partial or full) entry
+                n = runs[-1][1] + r.choice([0, 1, 64, 130, 200])
+                v = mkvec(n, runs)
+                st = [r.choice([[R9, S9], [R9, S9], [ANB, R9, S9], [R9, S9, SZAC(12, 3)]])]
+                eps.append(episode(v, {"t": "clean"} if r.random() < 0.6 else r.choice(tails(r)), st, r, what,
+                                   src="s9span"))
+    return eps
+
+
 def main_episodes(seed, what, want, scale=1, src="recipe"):
     """C01 (what = rank) / C02 (what = select): every vector family x tails x stacks in rotation"""
     r = random.Random(seed)
@@ -573,7 +616,9 @@ def main_episodes(seed, what, want, scale=1, src="recipe"):
     for v, tail in probe_vectors():
         eps.append(episode(v, tail, rot.take(8), r, what, src="probe"))
     for v, k, fam in all_vectors(r, scale):
-        eps.append(episode(v, next(tl), must_for(fam, r) + rot.take(k), r, what, src=src))
+        eps.append(episode(v, next(tl), must_for(fam, r, v) + rot.take(k), r, what, src=src))
+    if "select" in what:
+        eps += s9_boundary_episodes(r, what)
     return eps
 
 
